@@ -15,13 +15,13 @@ RULE = ("split: exhaustive grid n in 0..N x test fraction x val fraction (None +
 ASSUMPTIONS = ["pkbar is replaced by a silent stub only if its import fails in this sandbox (progress bar, unrelated to data handling)",
                "floor rule accepted in exact rational or in binary floating arithmetic (both are 'floor(frac*n)')",
                "which samples go to which split is not prescribed by the property; only sizes, partition, pairing and (shuffle off) relative order are asserted"]
-EXHAUSTIVE = {"quick": "n<=16, fractions on 0.1 grid, batch sizes 1..n+3", "thorough": "n<=40, fractions on 0.05 grid, batch sizes 1..n+3"}
+EXHAUSTIVE = {"quick": "n<=16, fractions on 0.1 grid, batch sizes 1..n+3", "thorough": "n<=64, fractions on 0.05 grid, batch sizes 1..n+3"}
 SHARDS_PER_JOB = 1
 SHARD_TIMEOUT = {"quick": 300, "thorough": 1800}
 
 
 def gen_cases(tier, seed):
-    N = 16 if tier == "quick" else 40
+    N = 16 if tier == "quick" else 64
     step = 10 if tier == "quick" else 5
     fr = [i / 100 for i in range(0, 101, step)]
     cases = []
